@@ -347,42 +347,29 @@ Definition detail_step (sc : sched) :=
     | other => other
     end.
 
-(* `action_clean` AS STATED in Properties_C14.v (no bound on the details) is FALSE: d_len is an octet, so
-   after exactly 256 stored bytes it is 0 again while d_ptr still holds the block; the next
-   libwifi_add_action_detail takes the malloc branch and overwrites the pointer: the first block leaks. *)
-Definition action_cex : list (list byte) := [repeat 0 256; [0]].
-Lemma action_clean_false :
-  exists o h h', fold_left (detail_step (fun _ => false)) action_cex (Done (dobj0, heap0)) = Done (o, h) /\
-                 sk_free_action o h = Done h' /\ live_blocks h' = [0].
-Proof. eexists _, _, _. split; [vm_compute; reflexivity|]. split; vm_compute; reflexivity. Qed.
-Lemma action_clean_refuted :
-  ~ (forall sc (details : list (list byte)),
-       let run := fold_left (detail_step sc) details (Done (dobj0, heap0)) in
-       exists o h, run = Done (o, h) /\ exists h', sk_free_action o h = Done h' /\ live_blocks h' = []).
-Proof.
-  intros H. destruct (H (fun _ => false) action_cex) as (o & h & R & h' & F & L).
-  destruct action_clean_false as (o1 & h1 & h1' & R1 & F1 & L1).
-  rewrite R1 in R. inversion R; subst. rewrite F1 in F. inversion F; subst. rewrite L1 in L. discriminate L.
-Qed.
-
+(* libwifi_add_action_detail refuses (-EINVAL, nothing changed) an append that would take the stored
+   length past its one-octet counter, so the length never wraps to 0 while a block is owned: a
+   successful append has zlen data > 0 and makes the length positive. *)
 Definition Dinv (d : dobj) (h : heap) : Prop :=
-  0 <= d_len d /\ (d_len d = 0 <-> d_ptr d = None) /\ live_blocks h = optl (d_ptr d) /\ fresh h.
+  0 <= d_len d <= 255 /\ (d_len d = 0 <-> d_ptr d = None) /\ live_blocks h = optl (d_ptr d) /\ fresh h.
 
-Lemma add_detail_D sc d data h : Dinv d h -> d_len d + zlen data <= 255 ->
-  exists d' r h', sk_add_detail sc d data h = Done (d', r, h') /\ Dinv d' h' /\ d_len d' <= d_len d + zlen data.
+Lemma add_detail_D sc d data h : Dinv d h ->
+  exists d' r h', sk_add_detail sc d data h = Done (d', r, h') /\ Dinv d' h'.
 Proof.
-  intros (H0 & Hz & HL & HF) Hb. pose proof (zlen_nonneg data) as Hd. unfold sk_add_detail. unfold byte in *.
+  intros (H0 & Hz & HL & HF). pose proof (zlen_nonneg data) as Hd. unfold sk_add_detail. unfold byte in *.
   destruct (zlen data =? 0) eqn:Ed.
-  { exists d, (d_len d), h. split; [reflexivity|]. split; [repeat split; tauto || assumption | lia]. }
-  assert (Hm : (d_len d + zlen data) mod 256 = d_len d + zlen data) by (apply Z.mod_small; lia).
+  { exists d, (d_len d), h. split; [reflexivity|]. repeat split; tauto || assumption. }
+  destruct (255 <? d_len d + zlen data) eqn:Eb.
+  { exists d, (- EINVAL), h. split; [reflexivity|]. repeat split; tauto || assumption. }
+  apply Z.eqb_neq in Ed. apply Z.ltb_ge in Eb.
   destruct (d_len d =? 0) eqn:E0.
   - apply Z.eqb_eq in E0. pose proof (proj1 Hz E0) as HP. rewrite HP in HL. cbn [optl] in HL. cbn [bind].
     destruct (malloc_cases sc (zlen data) h) as [(S1 & h1 & M & L1 & N1 & C1)|(S1 & h1 & M & L1 & N1 & C1)];
       rewrite M; cbv iota beta.
-    + exists d, (- Alloc.ENOMEM), h1. split; [reflexivity|]. split; [|lia].
+    + exists d, (- Alloc.ENOMEM), h1. split; [reflexivity|].
       split; [exact H0|]. split; [exact Hz|]. rewrite HP. cbn [optl].
       split; [congruence|]. apply (fresh_mono h); [exact HF | rewrite L1; auto | lia].
-    + eexists _, _, h1. split; [reflexivity|]. unfold Dinv. cbn [d_len d_ptr]. rewrite Hm. split; [|lia].
+    + eexists _, _, h1. split; [reflexivity|]. unfold Dinv. cbn [d_len d_ptr].
       split; [lia|]. split; [split; [lia | discriminate]|]. cbn [optl].
       assert (L1' : live_blocks h1 = [h_next h]) by (rewrite L1, HL; reflexivity).
       split; [exact L1'|]. intros x Hx. rewrite L1' in Hx. destruct Hx as [<-|[]]. lia.
@@ -390,42 +377,57 @@ Proof.
     cbn [optl] in HL. assert (Hbb : b < h_next h) by (apply HF; rewrite HL; left; reflexivity).
     destruct (realloc_cases sc b (zlen data + d_len d) h) as [(S1 & h1 & M & L1 & N1 & C1)|(S1 & h1 & M & L1 & N1 & C1)];
       [rewrite HL; left; reflexivity| |]; rewrite M; cbn [bind].
-    + exists d, (- Alloc.ENOMEM), h1. split; [reflexivity|]. split; [|lia].
+    + exists d, (- Alloc.ENOMEM), h1. split; [reflexivity|].
       split; [exact H0|]. split; [rewrite HP; exact Hz|]. rewrite HP. cbn [optl].
       split; [congruence|]. apply (fresh_mono h); [exact HF | rewrite L1; auto | lia].
-    + eexists _, _, h1. split; [reflexivity|]. unfold Dinv. cbn [d_len d_ptr]. rewrite Hm. split; [|lia].
+    + eexists _, _, h1. split; [reflexivity|]. unfold Dinv. cbn [d_len d_ptr].
       split; [lia|]. split; [split; [lia | discriminate]|]. cbn [optl].
       assert (L1' : live_blocks h1 = [h_next h]) by (rewrite L1, HL, rm_head; reflexivity).
       split; [exact L1'|]. intros x Hx. rewrite L1' in Hx. destruct Hx as [<-|[]]. lia.
 Qed.
 
-Lemma details_D sc : forall details d h, Dinv d h -> d_len d + zlen (concat details) <= 255 ->
+Lemma details_D sc : forall details d h, Dinv d h ->
   exists o h', fold_left (detail_step sc) details (Done (d, h)) = Done (o, h') /\ Dinv o h'.
 Proof.
-  induction details as [|a r IH]; intros d h HD Hb.
+  induction details as [|a r IH]; intros d h HD.
   - exists d, h. split; [reflexivity | exact HD].
-  - cbn [concat] in Hb. rewrite zlen_app in Hb. pose proof (zlen_nonneg (concat r)).
-    destruct (add_detail_D sc d a h HD) as (d' & r' & h' & A & HD' & Hl); [lia|].
-    cbn [fold_left]. unfold detail_step at 2. rewrite A. apply IH; [exact HD' | lia].
+  - destruct (add_detail_D sc d a h HD) as (d' & r' & h' & A & HD').
+    cbn [fold_left]. unfold detail_step at 2. rewrite A. apply IH. exact HD'.
 Qed.
 
-(* the closest true variant: the stored details never reach 256 bytes *)
-Lemma action_clean_bounded : forall sc (details : list (list byte)), zlen (concat details) <= 255 ->
+(* any sequence of details, any failure schedule *)
+Lemma action_clean : forall sc (details : list (list byte)),
   let run := fold_left (fun (st : res (dobj * heap)) d =>
                           match st with Done (o, h) => match sk_add_detail sc o d h with Done (o', _, h') => Done (o', h') | Fault k z => Fault k z | OutOfFuel => OutOfFuel end
                                       | other => other end) details (Done (dobj0, heap0)) in
   exists o h, run = Done (o, h) /\ exists h', sk_free_action o h = Done h' /\ live_blocks h' = [].
 Proof.
-  intros sc details Hb run. subst run.
+  intros sc details run. subst run.
   assert (D0 : Dinv dobj0 heap0).
   { split; [cbn; lia|]. split; [cbn; tauto|]. split; [reflexivity | exact fresh_heap0]. }
-  destruct (details_D sc details dobj0 heap0 D0) as (o & h & R & (H0 & Hz & HL & HF)); [cbn [dobj0 d_len]; lia|].
+  destruct (details_D sc details dobj0 heap0 D0) as (o & h & R & (H0 & Hz & HL & HF)).
   exists o, h. split; [exact R|]. unfold sk_free_action.
   destruct (d_ptr o) as [b|]; cbn [optl] in HL.
   - destruct (free_some b h) as (h1 & F & L3 & _); [rewrite HL; left; reflexivity|].
     exists h1. split; [exact F|]. rewrite L3, HL, rm_head. reflexivity.
   - destruct (free_none h) as (h1 & F & L3 & _). exists h1. split; [exact F | congruence].
 Qed.
+
+(* the bounded instance (every append fits, none is refused) follows *)
+Lemma action_clean_bounded : forall sc (details : list (list byte)), zlen (concat details) <= 255 ->
+  let run := fold_left (fun (st : res (dobj * heap)) d =>
+                          match st with Done (o, h) => match sk_add_detail sc o d h with Done (o', _, h') => Done (o', h') | Fault k z => Fault k z | OutOfFuel => OutOfFuel end
+                                      | other => other end) details (Done (dobj0, heap0)) in
+  exists o h, run = Done (o, h) /\ exists h', sk_free_action o h = Done h' /\ live_blocks h' = [].
+Proof. intros sc details _. exact (action_clean sc details). Qed.
+
+(* the input that leaked a block before the refusal was added (256 bytes, then 1): the first append is
+   now refused with -EINVAL and nothing stays allocated *)
+Definition action_cex : list (list byte) := [repeat 0 256; [0]].
+Lemma action_cex_clean :
+  exists o h h', fold_left (detail_step (fun _ => false)) action_cex (Done (dobj0, heap0)) = Done (o, h) /\
+                 sk_free_action o h = Done h' /\ live_blocks h' = [].
+Proof. eexists _, _, _. split; [vm_compute; reflexivity|]. split; vm_compute; reflexivity. Qed.
 
 (* ================================================================ C15: failure is reported *)
 Lemma malloc_inv sc n h p h1 : h_malloc sc n h = (p, h1) ->
@@ -552,43 +554,38 @@ Proof.
       right. split; [rewrite Z0; unfold TagIter.EINVAL; lia|]. left. exact Z1.
 Qed.
 
-(* `detail_reported` AS STATED in Properties_C15.v is FALSE: d is unconstrained, and with empty data the
-   routine returns d_len d unchanged, which may be a negative value other than -ENOMEM. *)
-Definition detail_cex : dobj := {| d_len := -1; d_bytes := []; d_ptr := None |}.
-Lemma detail_reported_false :
-  sk_add_detail (fun _ => false) detail_cex [] heap0 = Done (detail_cex, -1, heap0).
-Proof. vm_compute. reflexivity. Qed.
-Lemma detail_reported_refuted :
-  ~ (forall sc d data h d' r h', sk_add_detail sc d data h = Done (d', r, h') ->
-       (r = - Alloc.ENOMEM /\ d' = d) \/ (0 <= r /\ d_bytes d' = d_bytes d ++ data)).
-Proof.
-  intros H. destruct (H _ _ _ _ _ _ _ detail_reported_false) as [[R _]|[R _]].
-  - vm_compute in R. discriminate R.
-  - lia.
-Qed.
-
-(* the closest true variant: the recorded length is a length (0 <= d_len d) *)
-Lemma detail_reported_nonneg : forall sc d data h d' r h', 0 <= d_len d ->
+(* the recorded length is a length (0 <= d_len d; with a negative d_len and empty data the routine would
+   hand that negative value back as its result) *)
+Lemma detail_reported : forall sc d data h d' r h', 0 <= d_len d ->
   sk_add_detail sc d data h = Done (d', r, h') ->
-  (r = - Alloc.ENOMEM /\ d' = d) \/ (0 <= r /\ d_bytes d' = d_bytes d ++ data).
+  (r = - Alloc.ENOMEM /\ d' = d) \/ (r = - TagIter.EINVAL /\ d' = d) \/ (0 <= r /\ d_bytes d' = d_bytes d ++ data).
 Proof.
   intros sc d data h d' r h' H0. unfold sk_add_detail.
   destruct (zlen data =? 0) eqn:Ed.
-  { intros H; inversion H; subst. right. split; [exact H0|].
+  { intros H; inversion H; subst. right. right. split; [exact H0|].
     destruct data; [rewrite app_nil_r; reflexivity|]. rewrite zlen_cons in Ed. pose proof (zlen_nonneg data). lia. }
+  destruct (255 <? d_len d + zlen data) eqn:Eb.
+  { intros H; inversion H; subst. right. left. split; reflexivity. }
   assert (A : forall (m : res (option blk * heap)),
     bind m (fun '(p, h1) => match p with
        | None => Done (d, - Alloc.ENOMEM, h1)
-       | Some b => let l := (d_len d + zlen data) mod 256 in
+       | Some b => let l := d_len d + zlen data in
                    Done ({| d_len := l; d_bytes := d_bytes d ++ data; d_ptr := Some b |}, l, h1) end)
     = Done (d', r, h') ->
-    (r = - Alloc.ENOMEM /\ d' = d) \/ (0 <= r /\ d_bytes d' = d_bytes d ++ data)).
+    (r = - Alloc.ENOMEM /\ d' = d) \/ (r = - TagIter.EINVAL /\ d' = d) \/ (0 <= r /\ d_bytes d' = d_bytes d ++ data)).
   { intros m. destruct m as [[p h1]| |]; cbn [bind]; try discriminate. destruct p as [b|].
-    - cbv zeta. intros H; inversion H; subst. right. split; [|reflexivity].
-      apply Z.mod_pos_bound. lia.
+    - cbv zeta. intros H; inversion H; subst. right. right. split; [|reflexivity].
+      pose proof (zlen_nonneg data). unfold byte in *. lia.
     - intros H; inversion H; subst. left. split; reflexivity. }
   apply A.
 Qed.
+
+(* the earlier counterexample object (negative recorded length) is outside the hypothesis, and is still
+   the reason for it *)
+Definition detail_cex : dobj := {| d_len := -1; d_bytes := []; d_ptr := None |}.
+Lemma detail_cex_result :
+  sk_add_detail (fun _ => false) detail_cex [] heap0 = Done (detail_cex, -1, heap0).
+Proof. vm_compute. reflexivity. Qed.
 
 Lemma copy_parser_reported : forall sc reached n code h p r h',
   sk_copy_parser sc reached n code h = (p, r, h') ->
